@@ -248,6 +248,12 @@ def e2e(T, rng, o, seed, rounds, r0=0):
             g.client._secret_holder = sh
             g.nodemaker = g.make_nodemaker(secret_holder=sh)
             peer = {name: s.serverid for name, s in g.servers.items()}
+            if len(g.servers) >= 2 and r % 2 == 1:
+                # one candidate server cannot take shares (read-only, truthfully advertised): the uploader filters it out of its
+                # writable list -- every other server must still be given the secrets derived from its own lease seed
+                ro = g.servers[sorted(g.servers)[rng.randrange(len(g.servers))]]
+                ro.ss.readonly_storage = True
+                ro.rref.version = ro.fss.remote_get_version()
 
             def server_secrets(si):
                 return {name: (E("bucket_renewal_secret", {"lease_secret": ls, "storage_index": si, "peerid": pid}),
